@@ -3,10 +3,32 @@ From Coq Require Import List Arith Bool.
 From Crux Require Import Rt.Lang Rt.Rt Rt.Host Rt.Check Rt.Frame Rt.Props Rt.HostProps.
 Import ListNotations.
 
-(* Full statement (kept visible): every call of every app leaves the whole core quiescent - executor
-   queues, event and request channels and, recursively, every hosted command at every depth - returns
-   each requested effect exactly once, and has applied every emitted event.  Its observable form is
-   C01_ok of Check.v: a Noop probe after any call returns nothing and changes nothing but the log. *)
+(* The observable form of C01 is C01_ok of Check.v: a Noop probe (an event nobody handles) submitted right
+   after any accepted call returns no effect and changes nothing but the log - nothing runnable had been
+   left behind, nothing was deferred to a later call.  It is PROVED of every trace of the Core model, for
+   every app in which event 99 has no handler, every history and every fuel >= 6 (below that not even
+   Command::done() can be run): *)
+From Crux Require Rt.Probe.
+Theorem C01_ok_holds_of_model : forall F hs d p acts os,
+  lookup 99 hs = c_done ->
+  under_core (S (S (S (S (S (S F)))))) hs acts = Some os -> C01_ok (true, d, p, hs, acts, os) = true.
+Proof. intros F hs d p acts os Hp. exact (Probe.C01_ok_of_model F hs Hp d p acts os). Qed.
+
+(* its core, for ANY heap (whatever channels, tasks and other commands it holds): on an idle Core - executor
+   queues empty, no event pending, request channel drained, which is how every accepted call leaves it
+   (C01_core_idle_at_return below) - the call returns no effect, applies exactly its own event, leaves the
+   Core idle and the shell's requests untouched *)
+Theorem C01_probe_silent_model : forall F hs tg v k,
+  lookup tg hs = c_done ->
+  k_spawn k = [] -> xready (k_H k) = [] -> k_events k = [] -> hout (k_H k) = [] ->
+  exists k', cstep (S (S (S (S (S (S F)))))) hs (AEvent tg v) k = Some (OCall 0 [] (k_log k ++ [mkEv tg v []]), k') /\
+             k_spawn k' = [] /\ xready (k_H k') = [] /\ k_events k' = [] /\ hout (k_H k') = [] /\
+             k_log k' = k_log k ++ [mkEv tg v []] /\ k_reqs k' = k_reqs k.
+Proof. exact Probe.probe_silent_model. Qed.
+
+(* What the probe does not observe, and what therefore still rests on the correspondence alone (kept
+   visible): that every command hosted inside another, at every depth, has empty ready and spawn queues when
+   the call returns, and that each requested effect is handed over exactly once. *)
 Definition C01_full_statement : Prop :=
   forall fuel hs acts os, under_core fuel hs acts = Some os -> C01_ok (true, false, c_done, hs, acts, os) = true.
 
